@@ -16,10 +16,12 @@
 #include <gvt/fossil.h>
 #include <log/stats.h>
 #include <mm/msg_allocator.h>
+#include <verif_hooks.h>
 
 static void worker_thread_init(rid_t this_rid)
 {
 	rid = this_rid;
+	VH(VH_STAGE, NULL, VS_THREAD_START, 0);
 	stats_init();
 	auto_ckpt_init();
 	msg_allocator_init();
@@ -36,11 +38,13 @@ static void worker_thread_init(rid_t this_rid)
 		logger(LOG_INFO, "Starting simulation");
 		stats_global_time_take(STATS_GLOBAL_EVENTS_START);
 	}
+	VH(VH_STAGE, NULL, VS_INIT_DONE, 0);
 }
 
 static void worker_thread_fini(void)
 {
 	gvt_msg_drain();
+	VH(VH_STAGE, NULL, VS_DRAIN_DONE, 0);
 
 	if(sync_thread_barrier()) {
 		stats_dump();
@@ -51,14 +55,18 @@ static void worker_thread_fini(void)
 	}
 
 	lp_fini();
+	VH(VH_STAGE, NULL, VS_LP_FINI_DONE, 0);
 	msg_queue_fini();
+	VH(VH_STAGE, NULL, VS_QUEUE_FINI_DONE, 0);
 	sync_thread_barrier();
 	msg_allocator_fini();
+	VH(VH_STAGE, NULL, VS_THREAD_DONE, 0);
 }
 
 static thrd_ret_t THREAD_CALL_CONV parallel_thread_run(void *rid_arg)
 {
 	worker_thread_init((uintptr_t)rid_arg);
+	VH(VH_STAGE, NULL, VS_LOOP, 0);
 
 	while(likely(termination_cant_end())) {
 		mpi_remote_msg_handle();
@@ -69,14 +77,18 @@ static thrd_ret_t THREAD_CALL_CONV parallel_thread_run(void *rid_arg)
 
 		simtime_t current_gvt = gvt_phase_run();
 		if(unlikely(current_gvt != 0.0)) {
+			VH(VH_GVT_VALUE, NULL, VH_BITS(current_gvt), 0);
 			termination_on_gvt(current_gvt);
 			auto_ckpt_on_gvt();
 			fossil_on_gvt(current_gvt);
 			msg_allocator_on_gvt(current_gvt);
 			stats_on_gvt(current_gvt);
+			VH(VH_GVT_CONSUMED, NULL, VH_BITS(current_gvt), 0);
 		}
+		VH(VH_LOOP_TAIL, NULL, 0, 0);
 	}
 
+	VH(VH_STAGE, NULL, VS_LOOP_EXIT, 0);
 	worker_thread_fini();
 
 	return THREAD_RET_SUCCESS;
